@@ -177,6 +177,26 @@ pub fn exec(ctx: &mut Ctx, op: &str, p: &mut Toks) -> String {
                 None => "err reject".into(),
             }
         }
+        "obj.reset" => {
+            // the objective configured through `Network::set_objective`, called twice: the second call decides alone
+            let name1 = p.tok().to_string();
+            let clamp1 = if p.peek_none() { None } else { Some((p.flt(), p.flt())) };
+            let name = p.tok().to_string();
+            let clamp = if p.peek_none() { None } else { Some((p.flt(), p.flt())) };
+            let pred = p.tensor();
+            let target = p.tensor();
+            let res = try_run(|| {
+                let mut net = neurons::network::Network::new(Shape::Single(1));
+                net.set_objective(obj_of(&name1), clamp1);
+                net.set_objective(obj_of(&name), clamp);
+                net.verif_objective(&pred, &target)
+            });
+            objective_checks(ctx, &name, clamp, &pred, &target, &res);
+            match res {
+                Some((l, g)) => format!("ok {} {}", rf(l), rt(&g)),
+                None => "err reject".into(),
+            }
+        }
         "opt.run" => opt_run(ctx, p),
         _ => format!("bad unknown op {}", op),
     }
